@@ -159,7 +159,7 @@ command as the specification does, where the specification is
 
   * point read  = last committed value of exactly (column, value type, key),
   * member scan = exactly the committed members of exactly (column, key), each returned in its
-    encoded form,
+    encoded form and each exactly once,
   * operations of a batch / buffer that is not committed are invisible,
   * `commit` applies all operations of the batch in one step, in order (a batch takes effect as a whole),
   * `reopen` keeps the committed content and forgets open batches.
